@@ -4,11 +4,13 @@
       forall n rest, bytes_ok n = true -> good_rest rest -> lex1 (47 :: esc_iso n ++ rest) = (TName n, rest)
     i.e. every name written at a name-emission site (escape_pdf_name, #XX escaping) reads back as the
     same bytes — in the resource dictionary (object lexer, C09's model) and in the content stream
-    (ContentTokenizer::read_name/decode_name, C21's model).  At the level of Rust Strings this gives
-    "reads back as the same name" for every ASCII name — white space, delimiters, '#', controls
-    included (c30_image_ascii_reads_back, c30_form_ascii_never_broken).  What remains open is the
-    READER's one-char-per-byte decoding of non-ASCII names (c30_nonascii_refuted, finding
-    C30-name-nonascii). *)
+    (ContentTokenizer::read_name/decode_name, C21's model).  At the level of Rust Strings, with the
+    reader after fix_name_utf8 (decoded name bytes that are valid UTF-8 are the String), this gives
+    "reads back as the same name, as key and as Do operand" for EVERY name that is a Rust String
+    (valid UTF-8: white space, delimiters, '#', controls, non-ASCII included):
+      c30_image_utf8_reads_back : forall n, Tok.utf8_valid n = true -> predicted EImage n = 0
+    (c30_form_utf8_never_broken, c30_key_is_operand).  The reader's former one-char-per-byte decoding
+    of non-ASCII names (finding C30-name-nonascii, fixed) is kept as a record: c30_nonascii_refuted_pinned. *)
 From OxVerif Require Import Base.Util C09.Model C09.Tokens C09.FracSweep C09.Proofs C30.Model C30.Proofs.
 From OxVerif Require C21.Tok C21.Model C21.Lexemes.
 
@@ -31,18 +33,40 @@ Proof. exact esc_same. Qed.
 Check c30_escaper_models_agree : forall n, C21.Model.esc_name n = esc_iso n.
 Print Assumptions c30_escaper_models_agree.
 
-(** String level: an ungated entry point (images) given ANY ASCII name reads back with that name, as the
-    dictionary key and as the Do operand *)
+(** String level: an ungated entry point (images) given ANY name (a Rust String: valid UTF-8) reads back with
+    that name, as the dictionary key and as the Do operand *)
+Theorem c30_image_utf8_reads_back : forall n, Tok.utf8_valid n = true -> predicted EImage n = 0.
+Proof. exact image_utf8_reads_back. Qed.
+Check c30_image_utf8_reads_back : forall n, Tok.utf8_valid n = true -> predicted EImage n = 0.
+Print Assumptions c30_image_utf8_reads_back.
+(** key read back = Do operand read back = the user's String *)
+Theorem c30_key_is_operand : forall n, Tok.utf8_valid n = true -> key_back n = operand_back n /\ key_back n = Some n.
+Proof. exact key_is_operand. Qed.
+Check c30_key_is_operand : forall n, Tok.utf8_valid n = true -> key_back n = operand_back n /\ key_back n = Some n.
+Print Assumptions c30_key_is_operand.
+
+(** a gated entry point either rejects or writes a name that reads back *)
+Theorem c30_form_utf8_never_broken : forall n, Tok.utf8_valid n = true -> predicted EForm n <> 2.
+Proof. exact form_utf8_never_broken. Qed.
+Check c30_form_utf8_never_broken : forall n, Tok.utf8_valid n = true -> predicted EForm n <> 2.
+Print Assumptions c30_form_utf8_never_broken.
+
+(** the former ASCII-only statements are instances *)
 Theorem c30_image_ascii_reads_back : forall n, ascii_name n = true -> predicted EImage n = 0.
 Proof. exact image_ascii_reads_back. Qed.
 Check c30_image_ascii_reads_back : forall n, ascii_name n = true -> predicted EImage n = 0.
 Print Assumptions c30_image_ascii_reads_back.
-
-(** a gated entry point either rejects or writes a name that reads back *)
 Theorem c30_form_ascii_never_broken : forall n, ascii_name n = true -> predicted EForm n <> 2.
 Proof. exact form_ascii_never_broken. Qed.
 Check c30_form_ascii_never_broken : forall n, ascii_name n = true -> predicted EForm n <> 2.
 Print Assumptions c30_form_ascii_never_broken.
+(** the hypothesis is satisfiable on non-ASCII names (2-, 3-, 4-byte sequences); surrogates, overlongs, > U+10FFFF are not UTF-8 *)
+Example c30_utf8_hyp_nonvacuous :
+  Tok.utf8_valid [195; 169; 228; 184; 173; 49] = true /\ ascii_name [195; 169; 228; 184; 173; 49] = false
+  /\ predicted EImage [195; 169; 228; 184; 173; 49] = 0 /\ predicted EForm [195; 169; 228; 184; 173; 49] = 0
+  /\ predicted EImage [240; 159; 152; 128; 32; 35] = 0 /\ predicted EForm [240; 159; 152; 128; 32; 35] = 1
+  /\ Tok.utf8_valid [237; 160; 128] = false /\ Tok.utf8_valid [192; 128] = false /\ Tok.utf8_valid [244; 144; 128; 128] = false.
+Proof. exact utf8_hyp_nonvacuous. Qed.
 
 Theorem c30_validator_implies_regular : forall n, valid_resource_name n = true -> regular_name n = true.
 Proof. exact valid_regular. Qed.
@@ -74,15 +98,19 @@ Check c30_raw_name_refuted_pinned : exists n, lex1 (47 :: n ++ [32]) <> (TName n
   /\ parse (ser esc_iso (ODict [(n, ORef 5 0)])) = Some (PDict [(n, PRef 5 0)]) /\ predicted EImage n = 0.
 Print Assumptions c30_raw_name_refuted_pinned.
 
-(** what remains open (C30-name-nonascii): "é" comes back as the key "Ã©" although the Do operand is "é" *)
-Theorem c30_nonascii_refuted : exists n, bytes_ok n = true /\ Tok.utf8_valid n = true /\ ascii_name n = false
-  /\ key_back n = Some [195; 131; 194; 169] /\ operand_back n = Some n
-  /\ predicted EImage n = 2 /\ predicted EForm n = 2 /\ n = [195; 169].
-Proof. exact nonascii_refuted. Qed.
-Check c30_nonascii_refuted : exists n, bytes_ok n = true /\ Tok.utf8_valid n = true /\ ascii_name n = false
-  /\ key_back n = Some [195; 131; 194; 169] /\ operand_back n = Some n
-  /\ predicted EImage n = 2 /\ predicted EForm n = 2 /\ n = [195; 169].
-Print Assumptions c30_nonascii_refuted.
+(** RECORD of the reader before fix_name_utf8 (finding C30-name-nonascii, fixed): with the one-char-per-byte view
+    ([key_back_pinned], [predicted_latin1_pinned]) "é" came back as the key "Ã©" although the Do operand was "é";
+    with the repaired reader the same name reads back at both sites *)
+Theorem c30_nonascii_refuted_pinned : exists n, bytes_ok n = true /\ Tok.utf8_valid n = true /\ ascii_name n = false
+  /\ key_back_pinned n = Some [195; 131; 194; 169] /\ operand_back n = Some n
+  /\ predicted_latin1_pinned EImage n = 2 /\ predicted_latin1_pinned EForm n = 2
+  /\ key_back n = Some n /\ predicted EImage n = 0 /\ predicted EForm n = 0 /\ n = [195; 169].
+Proof. exact nonascii_refuted_pinned. Qed.
+Check c30_nonascii_refuted_pinned : exists n, bytes_ok n = true /\ Tok.utf8_valid n = true /\ ascii_name n = false
+  /\ key_back_pinned n = Some [195; 131; 194; 169] /\ operand_back n = Some n
+  /\ predicted_latin1_pinned EImage n = 2 /\ predicted_latin1_pinned EForm n = 2
+  /\ key_back n = Some n /\ predicted EImage n = 0 /\ predicted EForm n = 0 /\ n = [195; 169].
+Print Assumptions c30_nonascii_refuted_pinned.
 
 (** pages channel: the Coq judgement is exactly "every name resolves, on its page, to the resource registered there" *)
 Theorem c30_pages_judgement_sound : forall c, pages_code c = 0 <->
